@@ -359,6 +359,15 @@ OCTET_STRING_decode_ber(const asn_codec_ctx_t *opt_codec_ctx,
 					+ (tag_mode == 1 ? 0 : 1);
 				if(level < td->tags_count) {
 					expected_tag = td->tags[level];
+				} else if(level == td->tags_count && level
+					&& tlv_tag == td->tags[level - 1]) {
+					/*
+					 * Outermost segments repeating the own
+					 * tag of the string type (VisibleString
+					 * segments of a VisibleString) have
+					 * always been tolerated.
+					 */
+					expected_tag = tlv_tag;
 				} else if(type_variant == ASN_OSUBV_BIT) {
 					expected_tag = (ASN_TAG_CLASS_UNIVERSAL
 							| (3 << 2));
